@@ -4,7 +4,7 @@
    holds for every function from strings to parse results. *)
 From Coq Require Import List ZArith NArith Bool String.
 From Verif Require Import gen.LockProgs model.BackendCfg model.BackendLocks corr.Run_C13
-  proofs.BackendCfg_proofs proofs.BackendLocks_proofs.
+  proofs.BackendCfg_proofs proofs.BackendCfg_owner proofs.BackendLocks_proofs.
 Import ListNotations.
 Local Open Scope string_scope.
 
@@ -38,12 +38,14 @@ Proof. exact removed_url_refused. Qed.
 
 (* what is accepted after the chain is a backend of the final configuration: built
    from an id of its list and that id's section, for the host of the URL, with an
-   allowed scheme and a url that is a prefix of the looked-up URL *)
+   allowed scheme and a url that is a prefix of the looked-up URL - also when a "/"
+   is appended to it: the prefix ends at a path-segment boundary (fixes/C13/07) *)
 Theorem C13_accepted_only_if_configured_partial : forall up c0 cs st probe b,
   Forall new_style (c0 :: cs) -> run_chain up c0 cs = Some st ->
   lookup_static up st probe = LRes (Some b) ->
   exists p, up probe = Some p /\ configured_backend up (last cs c0) (n_host p) b /\
-            is_url_allowed b (p_scheme p) = true /\ String.prefix (b_url b) (add_slash (n_str p)) = true.
+            is_url_allowed b (p_scheme p) = true /\ String.prefix (b_url b) (add_slash (n_str p)) = true /\
+            String.prefix (add_slash (b_url b)) (add_slash (n_str p)) = true.
 Proof. exact accepted_only_if_configured. Qed.
 
 (* Reloading never panics: every state, every configuration (deprecated modes too), every chain *)
@@ -70,7 +72,8 @@ Proof. exact etcd_eq_fresh_table. Qed.
 Theorem C13_etcd_accepted_only_if_live : forall up evs probe b,
   lookup_etcd up (run_etcd up evs) probe = LRes (Some b) ->
   exists p, up probe = Some p /\ live up evs (b_id b) = Some (n_host p, b) /\
-            is_url_allowed b (p_scheme p) = true /\ String.prefix (b_url b) (add_slash (n_str p)) = true.
+            is_url_allowed b (p_scheme p) = true /\ String.prefix (b_url b) (add_slash (n_str p)) = true /\
+            (b_url b = "" \/ String.prefix (add_slash (b_url b)) (add_slash (n_str p)) = true).
 Proof. exact etcd_accepted_only_if_live. Qed.
 Theorem C13_etcd_deleted_refused : forall up evs k probe b,
   lookup_etcd up (run_etcd up (evs ++ [EDel k])) probe = LRes (Some b) -> b_id b <> k.
@@ -80,6 +83,75 @@ Theorem C13_etcd_lists_nonempty : forall up evs h l, es_tab (run_etcd up evs) h 
 Proof. exact etcd_lists_nonempty. Qed.
 Theorem C13_etcd_trace : forall up ops, P_C13 (mtrace_etcd up einit [] ops) = true.
 Proof. exact etcd_trace. Qed.
+
+(* ---- the lookup of one entry (getBackendLocked, fixes/C13/07) ---------------------------------
+   strings.HasPrefix(url, entry.url) &&
+     (entry.url[len(entry.url)-1] == '/' || url[len(entry.url)] == '/')
+   is the same as: entry.url with a "/" appended unless it ends in one is a prefix of url *)
+Theorem C13_lookup_boundary_is_slashed_prefix : forall eu url,
+  url_matches true eu url = String.prefix (add_slash eu) url.
+Proof. exact url_matches_add_slash. Qed.
+(* the index expression url[len(entry.url)] cannot be out of range where Go evaluates it:
+   url has the prefix entry.url, ends in "/" (getBackendLocked appends it) and entry.url does not *)
+Theorem C13_lookup_boundary_index_in_range : forall eu url,
+  String.prefix eu url = true -> ends_with_slash url = true -> ends_with_slash eu = false ->
+  String.length eu < String.length url.
+Proof. exact boundary_index_in_range. Qed.
+(* the repair changes no answer for entries whose URL ends in "/" or is empty (old-style) *)
+Theorem C13_lookup_repair_conservative : forall entries sch url,
+  (forall e, In e entries -> b_url e = "" \/ ends_with_slash (b_url e) = true) ->
+  find_entry entries sch url = find_entry_unrepaired entries sch url.
+Proof. exact find_entry_repair_conservative. Qed.
+
+(* ---- second clause of the trace predicate: an accepted URL belongs to its backend ------------
+   (corr/Run_C13.v, Section Owner: the configured URL of the backend an answer names,
+   slash-terminated, is a prefix of the looked-up URL, slash-terminated - the lookup
+   stops at a path-segment boundary; checked on the running and on the fresh answer).
+
+   Static storage: EVERY history of starts, reloads and lookups, every configuration
+   (deprecated modes included: their answers name the compat backend, which has no
+   URL and is not judged), every url.Parse oracle.  No hypothesis. *)
+Theorem C13_static_owner_trace : forall up ops,
+  owner_static up [] (mtrace_static up None ops) = true.
+Proof. exact owner_static_trace. Qed.
+
+(* Etcd storage: EVERY history of events and lookups, URLs written with or without
+   trailing "/".  [oracle_regular up] is an assumption on the url.Parse oracle, not on
+   the history (proofs/BackendCfg_owner.v): String() of a URL with a standard port is
+   not empty, and parsing a text with "/" appended agrees with parsing the text (needed
+   because the etcd storage parses the URL as written and the clause reads it
+   slash-terminated).  The harness checks both on every URL it writes to etcd. *)
+Theorem C13_etcd_owner_trace : forall up, oracle_regular up -> forall ops,
+  owner_etcd up [] (mtrace_etcd up einit [] ops) = true.
+Proof. exact owner_etcd_trace. Qed.
+
+(* The lookup as it was before fixes/C13/07 (plain string prefix; former finding
+   C13/etcd/url-without-trailing-slash): an etcd value {"url": "https://cloud.example/nextcloud"}
+   - the form of the example in server.conf.in - also accepted
+   https://cloud.example/nextcloud-test/..., in the running and in the freshly started
+   instance alike (P_C13's first clause could not see it); the repaired lookup refuses. *)
+Theorem C13_lookup_unrepaired_boundary_refuted : exists up evs probe a,
+  oracle_regular up /\
+  answer_of (lookup_etcd_unrepaired up (run_etcd up evs) probe) = ASome a /\
+  answer_of (lookup_etcd_unrepaired up (fresh_etcd up (final_kv evs)) probe) = ASome a /\
+  owner_ok up (kv_urls (final_kv evs)) probe (ASome a) = false /\
+  answer_of (lookup_etcd up (run_etcd up evs) probe) = ANone.
+Proof.
+  exists own_up, own_evs, "https://cloud.example/nextcloud-test/ocs/v2.php", own_k1.
+  split; [exact own_up_regular|exact lookup_unrepaired_refuted].
+Qed.
+(* ... and with the sibling configured under a later key its URLs were answered with the
+   first key's secret; the repaired lookup answers each URL with its own key *)
+Theorem C13_lookup_unrepaired_sibling_secret_refuted : exists up evs probe a a',
+  oracle_regular up /\
+  answer_of (lookup_etcd_unrepaired up (run_etcd up evs) probe) = ASome a /\
+  owner_ok up (kv_urls (final_kv evs)) probe (ASome a) = false /\
+  answer_of (lookup_etcd up (run_etcd up evs) probe) = ASome a' /\
+  owner_ok up (kv_urls (final_kv evs)) probe (ASome a') = true.
+Proof.
+  exists own_up, own_evs2, "https://cloud.example/nextcloud-test/ocs/v2.php", own_k1, own_k2.
+  split; [exact own_up_regular|exact lookup_unrepaired_refuted2].
+Qed.
 
 (* ---- lookups and reloads running concurrently always complete ------------------------------
    General lemma: threads running non-reentrant lock programs on one RWMutex
@@ -174,6 +246,30 @@ Example C13_etcd_trace_nonvacuous :
   [VOk; VAns (ASome (1%N, 1%N, 0%Z, 0%Z, 0%Z, false)) (ASome (1%N, 1%N, 0%Z, 0%Z, 0%Z, false));
    VOk; VAns ANone ANone; VAns (ASome (1%N, 2%N, 0%Z, 0%Z, 0%Z, false)) (ASome (1%N, 2%N, 0%Z, 0%Z, 0%Z, false))].
 Proof. vm_compute. reflexivity. Qed.
+(* the second clause on real work: two backends whose paths share a string prefix but not a
+   path prefix, listed in both orders; every URL is accepted for its own backend only *)
+Example C13_owner_nonvacuous :
+  Forall new_style (flat_map op_config seg_ops) /\
+  map snd (mtrace_static seg_up None seg_ops) =
+    [VOk; VAns (ASome (2%N, 2%N, 0%Z, 0%Z, 0%Z, false)) (ASome (2%N, 2%N, 0%Z, 0%Z, 0%Z, false));
+     VAns (ASome (1%N, 1%N, 0%Z, 0%Z, 0%Z, false)) (ASome (1%N, 1%N, 0%Z, 0%Z, 0%Z, false));
+     VAns ANone ANone; VOk;
+     VAns (ASome (2%N, 2%N, 0%Z, 0%Z, 0%Z, false)) (ASome (2%N, 2%N, 0%Z, 0%Z, 0%Z, false));
+     VAns (ASome (1%N, 1%N, 0%Z, 0%Z, 0%Z, false)) (ASome (1%N, 1%N, 0%Z, 0%Z, 0%Z, false))] /\
+  owner_static seg_up [] (mtrace_static seg_up None seg_ops) = true.
+Proof. exact seg_example. Qed.
+(* the etcd theorem on real work: the oracle of the witness meets oracle_regular; a value
+   written without trailing slash accepts its own URLs and refuses the sibling's; with the
+   sibling configured as well each URL is accepted for its own key (directed cases 900103/900104) *)
+Example C13_etcd_owner_nonvacuous :
+  oracle_regular own_up /\
+  map snd (mtrace_etcd own_up einit [] own_ops) =
+    [VOk; VAns (ASome own_k1) (ASome own_k1); VAns ANone ANone] /\
+  map snd (mtrace_etcd own_up einit [] own_ops2) =
+    [VOk; VOk; VAns (ASome own_k2) (ASome own_k2); VAns (ASome own_k1) (ASome own_k1)] /\
+  owner_etcd own_up [] (mtrace_etcd own_up einit [] own_ops) = true /\
+  owner_etcd own_up [] (mtrace_etcd own_up einit [] own_ops2) = true.
+Proof. split; [exact own_up_regular|exact etcd_owner_witness_traces]. Qed.
 (* the lock theorem applies to real work: 3 lookups and 2 reloads complete under this schedule *)
 Example C13_locks_nonvacuous :
   all_done (run [0;1;3;2;0;1;3;3;4;2;4;4;2;2] (init [[RLock; RUnlock]; [RLock; RUnlock]; [RLock; RUnlock]; [Lock; Unlock]; [Lock; Unlock]])) = true.
@@ -193,6 +289,13 @@ Print Assumptions C13_etcd_accepted_only_if_live.
 Print Assumptions C13_etcd_deleted_refused.
 Print Assumptions C13_etcd_lists_nonempty.
 Print Assumptions C13_etcd_trace.
+Print Assumptions C13_lookup_boundary_is_slashed_prefix.
+Print Assumptions C13_lookup_boundary_index_in_range.
+Print Assumptions C13_lookup_repair_conservative.
+Print Assumptions C13_static_owner_trace.
+Print Assumptions C13_etcd_owner_trace.
+Print Assumptions C13_lookup_unrepaired_boundary_refuted.
+Print Assumptions C13_lookup_unrepaired_sibling_secret_refuted.
 Print Assumptions C13_non_reentrant_progs_complete.
 Print Assumptions C13_generated_progs_non_reentrant.
 Print Assumptions C13_generated_entry_points.
